@@ -162,6 +162,51 @@ func TestC06Progress(t *testing.T) {
 			}
 		}
 	}
+	// a connection that has been idle for a while (the resend ticker has
+	// ticked on an empty queue, NACK-less) loses a packet: the pause limiter
+	// of queue.resend compares the time since the last *resend* with the
+	// handshake timeout, which the mailbox layer sets above the resend
+	// timeout (2 s vs >= 1 s); the lost packet must be retransmitted whatever
+	// the ratio of the two, with and without the peer's keepalive
+	for _, to := range [][2]time.Duration{{300 * time.Millisecond, time.Second},
+		{time.Second, 2 * time.Second}, {0, 2 * time.Second}, {500 * time.Millisecond, 5 * time.Second}} {
+		for _, idle := range []time.Duration{3500 * time.Millisecond, 11 * time.Second} {
+			for _, ka := range []bool{false, true} {
+				for _, burst := range []int{1, 4} {
+					to, idle, ka, burst := to, idle, ka, burst
+					dropped := false
+					dec := func(from string, idx int, pkt []byte, now time.Duration) vnet.Fate {
+						if !dropped && from == "c" && len(pkt) > 4 && pkt[0] == gbn.DATA &&
+							pkt[3] != gbn.TRUE && gbnrun.PayloadID(pkt[4:]) == burst {
+							dropped = true
+							return vnet.Fate{Copies: 0}
+						}
+						return vnet.Fate{Copies: 1}
+					}
+					cfg := gbnrun.Config{N: 5, Static: to[0], Latency: 20 * time.Millisecond, Decide: dec,
+						Msgs:  [2]int{burst, 0},
+						Extra: []gbn.TimeoutOptions{gbn.WithHandshakeTimeout(to[1])},
+						Gap: func(ep string, id int) time.Duration {
+							if id == 1 {
+								return idle
+							}
+							return 0
+						}}
+					if ka {
+						cfg.Ping = [2]time.Duration{7 * time.Second, 5 * time.Second}
+						cfg.Pong = [2]time.Duration{3 * time.Second, 3 * time.Second}
+					}
+					base := to[0]
+					if base == 0 {
+						base = time.Second
+					}
+					scens = append(scens, scen{map[string]any{"kind": "idle-then-loss", "staticMs": ms(to[0]),
+						"hsMs": ms(to[1]), "idleMs": ms(idle), "burst": burst, "ka": ka, "latMs": 20, "n": 5},
+						cfg, idle + time.Second, base, ka})
+				}
+			}
+		}
+	}
 	// acknowledgements that are late rather than lost, and stream writes that
 	// take a good part of a resend timeout: the resend starts although
 	// everything arrived, the ACKs (the expected one among them) and NACKs
